@@ -55,6 +55,13 @@ LOOPS = [
     ("range_ctarget", "a: cython.int, b: cython.int", "for j in range(a, b):", "j", "j"),
     ("reversed_range", "a: cython.int, b: cython.int", "for i in reversed(range(a, b)):", "i", "i"),
     ("reversed_range3", "a, b", "for i in reversed(range(a, b, 3)):", "i", "i"),
+    # bounds of different widths / kinds: the untyped target must be wide enough for every value between them
+    ("range_mix_uchar_int", "a: cython.uchar, b: cython.int", "for i in range(a, b):", "i", "i"),
+    ("range_mix_short_long", "a: cython.short, b: cython.long", "for i in range(a, b):", "i", "i"),
+    ("range_mix_int_obj", "a: cython.int, b", "for i in range(a, b):", "i", "i"),
+    ("range_mix_lit_obj", "b", "for i in range(1, b):", "i", "i"),
+    ("range_mix_schar_int_step", "a: cython.schar, b: cython.int", "for i in range(a, b, 3):", "i", "i"),
+    ("range_mix_int_uchar_neg", "a: cython.int, b: cython.uchar", "for i in range(a, b, -1):", "i", "i"),
     ("dict_rebind", "d: dict", "for i in d:", "i", "i"),
     ("list_rebind", "l: list", "for i in l:", "i", "i"),
 ]
@@ -100,6 +107,11 @@ def gen_source():
         out.append("def loop_%s(%s):" % (name, params))
         if name == "range_ctarget":
             out.append("    j: cython.int = -99")
+        elif name.startswith("range_mix"):
+            # the target is only ever bound by the loop, so its C type is inferred from the bounds; it is read after the
+            # loop only if the loop ran (an unbound C-typed local holds garbage by design, which is not this property)
+            out.append("    n = 0")
+            out.append("    last = 'unset'")
         else:
             for t in unset.split(", "):
                 out.append("    %s = 'unset'" % t)
@@ -108,8 +120,13 @@ def gen_source():
         if name.endswith("_rebind"):
             var = params.split(":")[0]
             body = body.replace("        r = hook(", "        %s = rebind(%s, %s)\n        r = hook(" % (var, var, "{}" if var == "d" else "[]"), 1)
+        if name.startswith("range_mix"):
+            body = body.replace("        r = hook(", "        n += 1\n        last = i\n        r = hook(", 1)
         out.append(body.strip("\n"))
-        out.append("    return (%s)" % (unset if ", " not in unset else unset))
+        if name.startswith("range_mix"):
+            out.append("    return (last, i if n else None)")
+        else:
+            out.append("    return (%s)" % (unset if ", " not in unset else unset))
         out.append("")
     return "\n".join(out) + "\n"
 
@@ -172,6 +189,26 @@ def gen_case(rng):
     elif name.startswith("bytearray"):
         arg = ["bytearray", "abcdefghij"[:size]]
         muts = BA_MUT
+    elif name.startswith("range_mix"):
+        RANGES = {"cython.uchar": (0, 255), "cython.schar": (-128, 127), "cython.short": (-32768, 32767),
+                  "cython.int": (-2 ** 31, 2 ** 31 - 1), "cython.long": (-2 ** 63, 2 ** 63 - 1), None: (-2 ** 70, 2 ** 70)}
+        vals = []
+        for prm in LOOPS[li][1].split(", "):
+            lo, hi = RANGES[prm.split(": ")[1] if ": " in prm else None]
+            edge = [lo, lo + 1, lo + 5, hi - 5, hi - 1, hi, 0, 1, -1, 3, 250, 255, 256, 260, 127, 128, 130, 32767, 32768, 32770, -129, -130,
+                    2 ** 31 - 1, 2 ** 31, 2 ** 31 + 3, 2 ** 63 - 1, 2 ** 63, 2 ** 63 + 4, -2 ** 31 - 2, -2 ** 63 - 2]
+            vals.append(rng.choice([v for v in edge if lo <= v <= hi]))
+        start = vals[0] if len(vals) == 2 else 1
+        down = "neg" in name
+        # keep the number of iterations small: move the start next to the stop when they are far apart (within the start's own type range)
+        if len(vals) == 2 and abs(vals[1] - start) > 40:
+            lo, hi = RANGES[LOOPS[li][1].split(", ")[0].split(": ")[1]]
+            cand = vals[1] + (rng.choice([2, 9, 30]) if down else -rng.choice([2, 9, 30]))
+            vals[0] = max(lo, min(hi, cand))
+            start = vals[0]
+        arg = ["ints", vals]
+        muts = []
+        far = abs(vals[-1] - start) > 60
     else:
         nparams = LOOPS[li][1].count(",") + 1
         typed = "cython.int" in LOOPS[li][1]
@@ -211,6 +248,8 @@ def gen_case(rng):
             script[str(k)] = ["continue"]
         else:
             script[str(k)] = ["raise"]
+    if name.startswith("range_mix") and far and not any(v[0] in ("break", "raise") for v in script.values()):
+        script[str(rng.randrange(2, 7))] = ["break"]      # a long range is always left early
     return {"loop": li, "arg": arg, "script": script}
 
 
